@@ -135,6 +135,27 @@ func vpH_C05_idless_typed() {
 	vpReach("end")
 }
 
+// a document with every property of its type present
+func vpH_C05_all() {
+	ti := vpChoice(len(vpTypeNames))
+	variant := vpChoice(3)
+	x := vpPopulated(ti)
+	cell := vpTypeNames[ti] + "/v" + string([]byte{'0' + byte(variant)})
+	y, err := UnmarshalJSON(vpDocOf(x, variant))
+	vpAssert("all/decode/"+cell, err == nil && y != nil)
+	if y == nil {
+		vpReach("end")
+		return
+	}
+	want := vpCloneItem(x)
+	vpC05Normal(want)
+	got := vpCloneItem(y)
+	vpC05Normal(got)
+	vpDiffItems("all/reads-the-document/"+cell, want, got, nil)
+	vpC05Fixpoint("all/"+cell, y)
+	vpReach("end")
+}
+
 // documents whose texts need escaping: decode, then the re-encoding is a fixpoint
 func vpH_C05_text_fixpoint() {
 	texts := []string{`a\u2028b`, `\u2029`, `<p>Hi & \"you\"</p>`, `line1\nline2\ttab`, `\ud83d\ude00 \u00e9`, `C:\\new\\table`, `\\u0041`, `\u0001\u001f\u007f`}
